@@ -40,11 +40,15 @@ def run(ctx):
             return any(os.path.islink(os.path.join(T.root, *parts[:k])) for k in range(1, len(parts) + 1))
         # only listings reached THROUGH a symlink matter here (which directories an explicit segment has to list is C05's business)
         segs_ = pp.split(':')[1].split('/')
-        only_gstar_prefix = all(s in ('g', 'G') for s in segs_[:-1]) and not c['matchbase'] or all(s in ('g', 'G') for s in segs_)
+        gs_ = ('g', 'G') if c['globstarlong'] else ('g',)      # without GLOBSTARLONG `***` is an ordinary `*`
+        only_gstar_prefix = all(s in gs_ for s in segs_[:-1]) and not c['matchbase'] or all(s in gs_ for s in segs_)
+        merged_mb = c['matchbase'] and c['follow'] and c['globstarlong'] and len(segs_) > 1 and all(s in ('g', 'G') for s in segs_)
         bad = sorted(d for d in listed if d not in allowed and d and through_link(d)) if only_gstar_prefix else []
         if bad:
             # a known hidden-segment defect lets the walker enter hidden directories the reference never lists
             if (globcommon.group_first(pp) or globcommon.star_then_wild(pp)) and all(globcommon.hid(d) or d in ('.', '..') or d.startswith(('./', '../')) for d in bad):
+                return
+            if merged_mb and ctx.is_known(lambda e: e['id'] == 'C05-matchbase-merged-globstars'):
                 return
             ctx.counterexample('glob(%r, %s) listed %r, which the reference interpretation never lists (symlink at a `**` position?)' % (
                 pattern, corr.flag_names(fv), bad[:4]), {'pattern': pattern, 'ppat': pp, 'flags': corr.flag_names(fv), 'tree': spec, 'listed': bad[:10]})
@@ -54,6 +58,8 @@ def run(ctx):
             parts = x.split('/')
             if any(os.path.islink(os.path.join(T.root, *parts[:k])) and os.path.isdir(os.path.join(T.root, *parts[:k])) for k in range(1, len(parts))):
                 if globcommon.group_first(pp) or globcommon.star_then_wild(pp):
+                    continue
+                if merged_mb and ctx.is_known(lambda e: e['id'] == 'C05-matchbase-merged-globstars'):
                     continue
                 ctx.counterexample('glob(%r, %s) listed through a symlinked directory: returned %r, which the reference interpretation does not denote' % (
                     pattern, corr.flag_names(fv), x), {'pattern': pattern, 'ppat': pp, 'flags': corr.flag_names(fv), 'tree': spec, 'path': x})
